@@ -116,8 +116,13 @@ CHECKS.update({
                  "absence of undefined behaviour in general (signed overflow outside the checked helpers, float-to-int conversions, recursion depth), NEVER()/ALWAYS() reachability.",
                  "R-GUARD/R-CONJ " + G + "; R-RET error-code value-set propagation; R-ERRDISC/R-ERRFLOW error-flow rules; R-OVF; R-IDX; R-BW; R-SIB; R-WIT " + WIT),
  "C13": _partial("C13", "the three rejection clauses of childPosToCell (E_RES_DOMAIN, E_RES_MISMATCH, E_DOMAIN via validateChildPos incl. position == size) and of cellToChildPos; "
-                 "the child-count closed forms both directions validate against (cellToChildrenSize).",
-                 "that the two digit/offset loops are mutually inverse and in cellToChildren order.", "R-GUARD " + G + "; R-CFORM " + CF),
+                 "positions -1, size, size+1, INT64_MAX, INT64_MIN are rejected without a store for every parent and all 136 resolution pairs; the child-count closed forms; "
+                 "cellToChildPos(h) is the RANK of h among the children in index order for every valid child (per-digit contribution tables equal the rank formula: base-7 value of "
+                 "the digits for a hexagon parent; P(c-k) + (v-2) 7^(c-k) + the digits after k for a pentagon parent whose first non-zero digit v is at k; all 952 (childRes, parentRes, "
+                 "family) cases); childPosToCell applied to that rank and the parent stores exactly that child. Hence the two are mutually inverse bijections between the children and "
+                 "0..size-1, and with the iterator induction of C04 (cellToChildren enumerates in index order) position i is the i-th element.",
+                 "inputs that are not valid cells (undocumented behaviour); that the rank formula counts the documented child set is arithmetic (counting argument in DESIGN.md 3 C13), not re-derived.",
+                 "R-GUARD " + G + "; R-CFORM " + CF + "; " + BP + " extended by a digit-contribution (lane-sum) domain with if-conversion; R-ERRFLOW"),
  "C14": _partial("C14", "announced size = gridDistance + 1 (errors passed on, nothing stored); gridPathCells writes out[n] only for n <= distance of the same callee's result, also on "
                  "the failing exits; resolution-mismatch rejection.", "contiguity / shortest path (floating interpolation).", "R-CFORM " + CF + "; R-BW " + BW + "; R-GUARD " + G),
  "C15": _partial("C15", "out[i] only where i < size, E_MEMORY_BOUNDS when the capacity is reached; flags outside {0,1,2,3} => E_OPTION_INVALID on both experimental entry points; "
